@@ -389,8 +389,13 @@ func (Prop) Run(p *core.Plan) *core.Result {
 	pv, blown := core.Guard(func() { exp = reference(&w, loc) })
 	simrt.End()
 	res.Events = world.Events
-	if blown || pv != nil {
-		return &core.Result{Infra: fmt.Sprintf("library reference panicked or exceeded the budget: %v", pv)}
+	if blown {
+		// the generated script is too large for the budget: the plan decides nothing
+		res.Probes["plans_skipped_reference_over_budget"]++
+		return res
+	}
+	if pv != nil {
+		return &core.Result{Infra: fmt.Sprintf("library reference panicked: %v", pv)}
 	}
 
 	// the simulated disk
@@ -585,7 +590,7 @@ func runInProcess(p *core.Plan, w *Workload, ws string, args []string) (out stri
 		return "", "dup2: " + err.Error()
 	}
 	_ = syscall.Dup2(int(capture.Fd()), 2)
-	world := core.BeginWorld(p, 3000000, false)
+	world := core.BeginWorld(p, 10*3000000, false) // ten times the reference's budget
 	world.BaseTime = time.Unix(0, w.ClockNanos)
 	pv, blown := core.Guard(func() {
 		root := platypus.NewRootCmd()
